@@ -86,8 +86,8 @@ the property they were written for.** The other eleven:
 
 After the generator changes of round eleven (estimated-cost rows, regex choices, escapes) a sample of older changes was run
 again instead of all 368 (`work/sweep-alt.log`): C01-m6, C01-m10, C02-m5, C02-m8, C02-m12, C02-m17, C04-m7, C04-m11, C04-m15,
-C05-m3, C05-m8, C05-m16, C06-m9, C07-m9, C08-m9, C12-m9, C12-m14, C12-m17, C17-m7, C18-m7, C20-m5, C20-m11 - see the end of
-this section for the outcome.
+C05-m3, C05-m8, C05-m16, C06-m9, C07-m9, C08-m9, C12-m9, C12-m14, C12-m17, C17-m7, C18-m7, C20-m5, C20-m11: all 22 are still
+detected by the quick check of their property.
 
 Changes in python/src or sudachi-cli/src are detected by the property's own check since the Rust-level monitors of C01,
 C03, C04, C08, C09, C10, C11, C12 and C18 have a stage that runs C19's driver and keeps the mismatch kinds that speak
